@@ -383,13 +383,14 @@ pub fn gen_source(rng: &mut Rng, p: &Profile, depth: u32) -> SourceSpec {
         bad_fd,
         ready_at_insert: rng.chance(p.p_ready_at_insert, 100),
         owns_adapter: matches!(p.name.as_str(), "C06" | "C08" | "C16") && rng.chance(1, 12),
+        bs_fail: if matches!(p.name.as_str(), "C15" | "C14") && rng.chance(1, 6) { Some(rng.below(4) as u8) } else { None },
     }
 }
 
 /// C01: a source whose event is already in the batch is removed by an earlier callback, its slot is
 /// reused k times within that callback and finally taken by a newcomer that has no cause of its own
 fn slot_reuse_scenario(rng: &mut Rng, p: &Profile) -> History {
-    let plain = |kind: Kind, ready: bool, prog: Vec<CbStep>| SourceSpec { kind, lifecycle: false, prog, fault: None, via_insert: false, bad_fd: None, ready_at_insert: ready, owns_adapter: false };
+    let plain = |kind: Kind, ready: bool, prog: Vec<CbStep>| SourceSpec { kind, lifecycle: false, prog, fault: None, via_insert: false, bad_fd: None, ready_at_insert: ready, owns_adapter: false, bs_fail: None };
     let k = *rng.pick(&[1u16, 2, 3, 17, 255, 256, 257, 511, 512, 513]);
     let newcomer = match rng.below(3) {
         0 => Kind::Gen { fd: FdKind::Pipe, int: Int::Read, md: Md::Level },
@@ -425,7 +426,7 @@ fn many_ready_scenario(rng: &mut Rng, p: &Profile, n: usize) -> History {
     for i in 0..n {
         let md = *rng.pick(&[Md::Level, Md::Level, Md::Edge, Md::OneShot]);
         let kind = if i % 7 == 0 { Kind::Ping } else { Kind::Gen { fd: FdKind::Eventfd, int: Int::Read, md } };
-        steps.push(Step::Op(Op::Insert(Box::new(SourceSpec { kind, lifecycle: false, prog: vec![], fault: None, via_insert: true, bad_fd: None, ready_at_insert: true, owns_adapter: false }))));
+        steps.push(Step::Op(Op::Insert(Box::new(SourceSpec { kind, lifecycle: false, prog: vec![], fault: None, via_insert: true, bad_fd: None, ready_at_insert: true, owns_adapter: false, bs_fail: None }))));
     }
     steps.push(Step::Dispatch(0));
     steps.push(Step::Dispatch(0));
@@ -455,7 +456,7 @@ fn idle_burst_scenario(rng: &mut Rng, p: &Profile) -> History {
     }
     let from_cb = rng.chance(1, 2);
     let prog = if from_cb { vec![CbStep { ops: idles.clone(), ret: Ret::Continue, tact: TAct::ToInstant(Dl::Far), child_ret: Ret::Continue }] } else { vec![] };
-    let mut steps = vec![Step::Op(Op::Insert(Box::new(SourceSpec { kind: Kind::Ping, lifecycle: false, prog, fault: None, via_insert: rng.chance(1, 2), bad_fd: None, ready_at_insert: false, owns_adapter: false })))];
+    let mut steps = vec![Step::Op(Op::Insert(Box::new(SourceSpec { kind: Kind::Ping, lifecycle: false, prog, fault: None, via_insert: rng.chance(1, 2), bad_fd: None, ready_at_insert: false, owns_adapter: false, bs_fail: None })))];
     for _ in 0..rng.below(3) {
         steps.push(Step::Op(Op::Insert(Box::new(gen_source(rng, p, 1)))));
     }
@@ -479,7 +480,63 @@ fn idle_burst_scenario(rng: &mut Rng, p: &Profile) -> History {
     History { profile: p.name.clone(), steps, end: rng.below(2) as u8 }
 }
 
+/// C14/C15: a lifecycle source announces a synthetic event in the very dispatch in which the before_sleep of a
+/// lifecycle source registered after it fails
+fn synth_vs_failing_hook_scenario(rng: &mut Rng, p: &Profile) -> History {
+    let life = |kind: Kind, bs_fail: Option<u8>| SourceSpec { kind, lifecycle: true, prog: vec![], fault: None, via_insert: false, bad_fd: None, ready_at_insert: false, owns_adapter: false, bs_fail };
+    if p.name == "C14" && rng.chance(1, 2) {
+        // no failure: the announcing source is not the last lifecycle source, and the dispatch is given a long
+        // timeout which the announced event must cut short
+        let mut steps = vec![Step::Op(Op::Insert(Box::new(life(Kind::Ping, None))))];
+        for _ in 0..rng.range(1, 3) {
+            let k = match rng.below(3) {
+                0 => Kind::Ping,
+                1 => Kind::Timer { dl: Dl::Far },
+                _ => Kind::Gen { fd: FdKind::Eventfd, int: Int::Read, md: Md::Level },
+            };
+            steps.push(Step::Op(Op::Insert(Box::new(life(k, None)))));
+        }
+        steps.push(Step::Op(Op::ArmSynth(Sel::Live(0))));
+        steps.push(Step::Dispatch(3000));
+        steps.push(Step::Dispatch(0));
+        return History { profile: p.name.clone(), steps, end: rng.below(2) as u8 };
+    }
+    let k = rng.below(3) as u8;
+    let mut steps = vec![];
+    let announcer = match rng.below(3) {
+        0 => Kind::Ping,
+        1 => Kind::Timer { dl: Dl::Far },
+        _ => Kind::Gen { fd: FdKind::Eventfd, int: Int::Read, md: Md::Level },
+    };
+    // (the announcer is the first lifecycle source of the history: selector Live(0) of ArmSynth)
+    steps.push(Step::Op(Op::Insert(Box::new(life(announcer, None)))));
+    steps.push(Step::Op(Op::Insert(Box::new(life(Kind::Ping, Some(k))))));
+    for _ in 0..rng.below(2) {
+        steps.push(Step::Op(Op::Insert(Box::new(gen_source(rng, p, 1)))));
+    }
+    for _ in 0..k {
+        steps.push(Step::Dispatch(0));
+    }
+    steps.push(Step::Op(Op::ArmSynth(Sel::Live(0))));
+    for _ in 0..3 {
+        steps.push(Step::Dispatch(0));
+    }
+    for _ in 0..rng.below(5) {
+        if let Some(op) = gen_op(rng, p, false, 0) {
+            steps.push(Step::Op(op));
+        }
+        if rng.chance(1, 2) {
+            steps.push(Step::Dispatch(0));
+        }
+    }
+    steps.push(Step::Dispatch(0));
+    History { profile: p.name.clone(), steps, end: rng.below(2) as u8 }
+}
+
 pub fn gen_history(rng: &mut Rng, p: &Profile) -> History {
+    if matches!(p.name.as_str(), "C14" | "C15") && rng.chance(1, 40) {
+        return synth_vs_failing_hook_scenario(rng, p);
+    }
     if matches!(p.name.as_str(), "C08" | "C13") && rng.chance(1, 25) {
         return idle_burst_scenario(rng, p);
     }
@@ -542,7 +599,7 @@ pub fn gen_history(rng: &mut Rng, p: &Profile) -> History {
 ///  ping a source whose processing fails + dispatch}
 pub const C13_SYMBOLS: u64 = 10;
 pub fn c13_enumerated(mut idx: u64, len: usize) -> History {
-    let plain = |prog: Vec<CbStep>| SourceSpec { kind: Kind::Ping, lifecycle: false, prog, fault: None, via_insert: false, bad_fd: None, ready_at_insert: false, owns_adapter: false };
+    let plain = |prog: Vec<CbStep>| SourceSpec { kind: Kind::Ping, lifecycle: false, prog, fault: None, via_insert: false, bad_fd: None, ready_at_insert: false, owns_adapter: false, bs_fail: None };
     let idle = |ops: Vec<Op>| Op::InsertIdle(Box::new(IdleSpec { ops }));
     let step = |ops: Vec<Op>, ret: Ret| CbStep { ops, ret, tact: TAct::ToInstant(Dl::Far), child_ret: Ret::Continue };
     let mut steps = vec![
